@@ -339,6 +339,25 @@ class WBin:
         return 2424
 
 
+class WTextFile(io.TextIOBase):
+    """a text stream over a binary buffer, as open(path, 'w') / sys.stdout are: write() keeps the text in the text
+    layer until flush(), returns the number of CHARACTERS, and the bytes end up in .buffer"""
+    encoding, errors = "utf-8", "strict"
+
+    def __init__(self):
+        self.buffer = WBin()
+        self.pending = []
+
+    def write(self, s):
+        self.pending.append(s)
+        return len(s)
+
+    def flush(self):
+        for s in self.pending:
+            self.buffer.write(s.encode(self.encoding))
+        self.pending = []
+
+
 class Dump(Harness):
     prop = "C09"
     must_reach = ("written", "refused")
@@ -363,6 +382,22 @@ class Dump(Harness):
             text = L.pvl.dumps(rt.shape_module(L, self.shape, inp["x"]), encoder=d["encoder"]())
         except (ValueError, TypeError):
             return Outcome("refused", True, None)
+        if self.mode == "textfile":
+            # earlier output of the caller is still in the text layer when dump() is called
+            w = WTextFile()
+            w.write("HEADER\n")
+            r = L.pvl.dump(m, w, encoder=d["encoder"]())
+            w.flush()
+            got = w.buffer.got
+            if len(got) != 2 or got[0] != b"HEADER\n":
+                return Outcome("written", False, {"writes_to_buffer": len(got),
+                                                  "header_first": bool(got) and isinstance(got[0], bytes) and got[0] == b"HEADER\n"})
+            body = got[1]
+            if isinstance(body, SymBytes):
+                ok = zand([body.encoding == "utf-8", str_eq(body.s, text), r == len(text)])
+            else:
+                ok = isinstance(body, bytes) and isinstance(text, str) and body == text.encode() and r == len(text)
+            return Outcome("written", ok, {"text": text, "returned": r})
         w = WText() if self.mode == "text" else WBin()
         r = L.pvl.dump(m, w, encoder=d["encoder"]())
         if len(w.got) != 1:
@@ -395,7 +430,7 @@ def obligations(tier):
         for n in ((0, 1, 3) if quick else (0, 1, 2, 3, 4, 6)):
             obs.append(Streams(entry=entry, label="flat", n=n))
     for d in ("PVL", "ODL", "PDS3", "ISIS"):
-        for mode in ("text", "binary"):
+        for mode in ("text", "binary", "textfile"):
             for shape in ("single", "group"):
                 for n in ((1, 2) if quick else (0, 1, 2, 3)):
                     obs.append(Dump(dialect=d, mode=mode, shape=shape, n=n))
